@@ -811,19 +811,23 @@ struct TraceCase {
     slow_us: u64,
     /// drop the join handle while the producers are still appending (C05)
     mid: bool,
+    /// entries appended (by an extra producer) while the stream is held shut, followed by a flush
+    /// request, before the gate opens and the other threads start: the writer then drains a backlog
+    /// past its deadline, which exercises the HitDeadline / entries_before_wake countdown (C04)
+    backlog: usize,
     seed: u64,
 }
 
 impl TraceCase {
     fn encode(&self) -> String {
         format!(
-            "trace {} {} {} {} {} {} {} {} {} {}",
-            self.kind.name(), self.cap, self.producers, self.per, self.interval_us, self.flushes, self.err_pct, self.slow_us, self.mid as u8, self.seed
+            "trace {} {} {} {} {} {} {} {} {} {} {}",
+            self.kind.name(), self.cap, self.producers, self.per, self.interval_us, self.flushes, self.err_pct, self.slow_us, self.mid as u8, self.backlog, self.seed
         )
     }
     fn decode(l: &str) -> Option<TraceCase> {
         let w: Vec<&str> = l.split_whitespace().collect();
-        if w.len() != 11 || w[0] != "trace" {
+        if w.len() != 12 || w[0] != "trace" {
             return None;
         }
         Some(TraceCase {
@@ -840,7 +844,8 @@ impl TraceCase {
             err_pct: w[7].parse().ok()?,
             slow_us: w[8].parse().ok()?,
             mid: w[9] == "1",
-            seed: w[10].parse().ok()?,
+            backlog: w[10].parse().ok()?,
+            seed: w[11].parse().ok()?,
         })
     }
 }
@@ -852,12 +857,37 @@ fn gen_trace(rng: &mut Rng, prop: &str) -> TraceCase {
     let interval_us = *rng.pick(&[1u64, 50, 1000, 5000, 50_000_000]);
     let seed = rng.next_u64() >> 16;
     match prop {
-        "C09" => TraceCase { kind, cap: *rng.pick(&[1usize, 2, 3, 5, 10]), producers, per, interval_us, flushes: rng.below(3) as usize, err_pct: 10, slow_us: *rng.pick(&[0u64, 5, 30]), mid: false, seed },
-        "C05" => TraceCase { kind, cap: *rng.pick(&[2usize, 8, 4096]), producers, per, interval_us, flushes: rng.below(2) as usize, err_pct: 10, slow_us: *rng.pick(&[0u64, 5]), mid: rng.chance(2, 3), seed },
-        "C04" => TraceCase { kind, cap: *rng.pick(&[1usize, 2, 5, 33, 4096]), producers, per, interval_us: *rng.pick(&[1u64, 1, 50, 5000, 50_000_000]), flushes: rng.range(2, 6) as usize, err_pct: 10, slow_us: *rng.pick(&[0u64, 0, 10]), mid: false, seed },
-        _ => TraceCase { kind, cap: 4096, producers, per, interval_us, flushes: rng.below(4) as usize, err_pct: 35, slow_us: 0, mid: false, seed },
+        "C09" => TraceCase { kind, cap: *rng.pick(&[1usize, 2, 3, 5, 10]), producers, per, interval_us, flushes: rng.below(3) as usize, err_pct: 10, slow_us: *rng.pick(&[0u64, 5, 30]), mid: false, backlog: 0, seed },
+        "C05" => TraceCase { kind, cap: *rng.pick(&[2usize, 8, 4096]), producers, per, interval_us, flushes: rng.below(2) as usize, err_pct: 10, slow_us: *rng.pick(&[0u64, 5]), mid: rng.chance(2, 3), backlog: 0, seed },
+        "C04" => {
+            if rng.chance(1, 3) {
+                backlog_trace(rng)
+            } else {
+                TraceCase { kind, cap: *rng.pick(&[1usize, 2, 5, 33, 4096]), producers, per, interval_us: *rng.pick(&[1u64, 1, 50, 5000, 50_000_000]), flushes: rng.range(2, 6) as usize, err_pct: 10, slow_us: *rng.pick(&[0u64, 0, 10]), mid: false, backlog: 0, seed }
+            }
+        }
+        _ => TraceCase { kind, cap: 4096, producers, per, interval_us, flushes: rng.below(4) as usize, err_pct: 35, slow_us: 0, mid: false, backlog: 0, seed },
     }
 }
+
+/// a trace that starts with a backlog behind a shut stream and a flush request (see `TraceCase::backlog`)
+fn backlog_trace(rng: &mut Rng) -> TraceCase {
+    TraceCase {
+        kind: if rng.chance(1, 2) { Kind::Typed } else { Kind::Boxed },
+        cap: *rng.pick(&[33usize, 64, 100, 512, 4096]),
+        producers: rng.range(0, 3) as usize,
+        per: rng.range(5, 40) as usize,
+        interval_us: *rng.pick(&[1u64, 1, 1, 50]),
+        flushes: rng.below(3) as usize,
+        err_pct: 5,
+        slow_us: *rng.pick(&[0u64, 2]),
+        mid: false,
+        backlog: rng.range(40, 300) as usize,
+        seed: rng.next_u64() >> 16,
+    }
+}
+
+static TRACE_FAILURES: std::sync::atomic::AtomicUsize = std::sync::atomic::AtomicUsize::new(0);
 
 static PERTURB: std::sync::atomic::AtomicU64 = std::sync::atomic::AtomicU64::new(0x1234_5678);
 
@@ -919,11 +949,27 @@ fn ent(id: u64) -> String {
 fn run_trace(tc: &TraceCase) -> TraceOutcome {
     use std::sync::Arc;
     let mut out = TraceOutcome::default();
-    let built = build(tc.kind, tc.cap, Duration::from_micros(tc.interval_us), false);
+    let built = build(tc.kind, tc.cap, Duration::from_micros(tc.interval_us), tc.backlog > 0);
     let gate = built.gate.clone();
     gate.slow_us.store(tc.slow_us, Ordering::Relaxed);
     let start = Arc::new(std::sync::Barrier::new(tc.producers + 2));
     let mut rng = Rng::new(tc.seed);
+    let fut_timeout = if TRACE_FAILURES.load(Ordering::SeqCst) > 0 { Duration::from_secs(3) } else { Duration::from_secs(10) };
+    // backlog phase: the stream is shut, an extra producer fills the ring, a flush is requested
+    let mut backlog_rec: Vec<(u64, Res, u64, u64)> = vec![];
+    let mut backlog_flush: Option<(u64, Pin<Box<FlushWait>>)> = None;
+    if tc.backlog > 0 {
+        for k in 0..tc.backlog {
+            let id = tc.producers as u64 * 1_000_000 + k as u64;
+            let inv = gate.tick();
+            built.handle.append(IdEntry { id, res: Res::Ok });
+            let ret = gate.tick();
+            backlog_rec.push((id, Res::Ok, inv, ret));
+        }
+        let inv = gate.tick();
+        backlog_flush = Some((inv, Box::pin(built.handle.flush())));
+        gate.open();
+    }
     // (id, res, inv, ret) per producer
     let mut prod_threads = vec![];
     for p in 0..tc.producers {
@@ -964,7 +1010,7 @@ fn run_trace(tc: &TraceCase) -> TraceOutcome {
                 std::thread::sleep(Duration::from_micros(r.below(150)));
                 let inv = g.tick();
                 let fut = Box::pin(h.flush());
-                let ok = block_on_timeout(fut, Duration::from_secs(10));
+                let ok = block_on_timeout(fut, fut_timeout);
                 let done = g.tick();
                 rec.push((inv, done, ok));
             }
@@ -989,7 +1035,17 @@ fn run_trace(tc: &TraceCase) -> TraceOutcome {
         per_prod.push(rec.iter().map(|r| r.0).collect());
         appended.extend(rec);
     }
-    let flush_rec = flusher.join().unwrap_or_default();
+    let mut flush_rec = flusher.join().unwrap_or_default();
+    if let Some((inv, fut)) = backlog_flush.take() {
+        let ok = block_on_timeout(fut, fut_timeout);
+        let done = gate.tick();
+        flush_rec.insert(0, (inv, done, ok));
+    }
+    if !backlog_rec.is_empty() {
+        per_prod.push(backlog_rec.iter().map(|r| r.0).collect());
+        appended.extend(backlog_rec);
+    }
+    let n_prod = per_prod.len();
     let total = appended.len();
     let mut fail = |out: &mut TraceOutcome, key: &str, what: String| {
         if out.oracle.is_none() {
@@ -1033,7 +1089,7 @@ fn run_trace(tc: &TraceCase) -> TraceOutcome {
     // ---- oracles
     let by_id: std::collections::HashMap<u64, (Res, u64, u64)> = appended.iter().map(|a| (a.0, (a.1, a.2, a.3))).collect();
     let mut next_stamp: std::collections::HashMap<u64, u64> = Default::default();
-    let mut last_k: Vec<Option<u64>> = vec![None; tc.producers];
+    let mut last_k: Vec<Option<u64>> = vec![None; n_prod];
     for (i, c) in calls.iter().enumerate() {
         match c {
             Call::Next(id, res) => {
@@ -1097,7 +1153,7 @@ fn run_trace(tc: &TraceCase) -> TraceOutcome {
     // flush barrier
     for (fi, (inv, done, ok)) in flush_rec.iter().enumerate() {
         if !ok {
-            fail(&mut out, "queue:c04-flush-never-completes", format!("flush future {fi} did not complete within 10 s"));
+            fail(&mut out, "queue:c04-flush-never-completes", format!("flush future {fi} did not complete within {} s", fut_timeout.as_secs()));
             continue;
         }
         out.flushes_done += 1;
@@ -1135,9 +1191,12 @@ fn run_trace(tc: &TraceCase) -> TraceOutcome {
     let deliv: Vec<String> = calls.iter().filter_map(|c| if let Call::Next(id, _) = c { Some(ent(*id)) } else { None }).collect();
     let overflowed = ov > 0 || tc.mid;
     let lst = |v: Vec<String>| if v.is_empty() { "-".to_string() } else { v.join(" ") };
+    if out.oracle.is_some() {
+        TRACE_FAILURES.fetch_add(1, Ordering::SeqCst);
+    }
     out.spec.push((
         "order".into(),
-        format!("order {} {} {} | {} | {}", tc.producers, overflowed as u8, (!overflowed) as u8, lst(pushes), lst(deliv)),
+        format!("order {} {} {} | {} | {}", n_prod, overflowed as u8, (!overflowed) as u8, lst(pushes), lst(deliv)),
     ));
     out
 }
@@ -1194,7 +1253,7 @@ fn shrink_guided(args: &Args, case: &Case, kind: Kind, fails: impl Fn(&GuidedOut
     let t0 = Instant::now();
     let mut tried = 0;
     let ops = shrink_list(&case.ops[1..], |cand| {
-        if tried >= 60 || t0.elapsed() > Duration::from_secs(90) {
+        if tried >= 40 || t0.elapsed() > Duration::from_secs(30) {
             return false;
         }
         let mut ops = vec![case.ops[0].clone()];
@@ -1232,7 +1291,8 @@ fn main() {
          the script makes the property's mechanism act (C09: at least one entry displaced; C01: >= 3 entries delivered \
          with at least one error result or a second handle; C05: dropjoin/forget with entries still queued or handles \
          cloned/dropped; C04: a flush requested while entries were queued); hww case = op sequence on the real \
-         WakerTracker, non-trivial = at least one waker completed; distinct by case text",
+         WakerTracker, non-trivial = at least one waker completed; trace case = run with real threads, non-trivial = \
+         at least two producers with >= 10 entries in total, or a backlog behind a shut stream; distinct by case text",
     );
     let mut rng = Rng::new(args.seed);
     let prop = args.property.clone();
@@ -1264,9 +1324,9 @@ fn main() {
         }
         let n = match (prop.as_str(), args.thorough()) {
             ("C04", false) => 150,
-            ("C04", true) => 2500,
+            ("C04", true) => 8000,
             (_, false) => 300,
-            (_, true) => 4000,
+            (_, true) => 15000,
         };
         for _ in 0..n {
             cases.push(gen_case(&mut rng, &p));
@@ -1274,7 +1334,7 @@ fn main() {
         if prop == "C04" {
             hww = hww_cases(&mut rng, args.thorough());
         }
-        let n_tr = if args.thorough() { 2000 } else { 100 };
+        let n_tr = if args.thorough() { 4000 } else { 100 };
         let mut trng = rng.fork(77);
         for _ in 0..n_tr {
             traces.push(gen_trace(&mut trng, &prop));
@@ -1292,8 +1352,9 @@ fn main() {
     };
 
     let threads = if args.thorough() { 12 } else { 3 };
-    let results = run_guided_batch(&cases, &preds, threads, Duration::from_secs(10), 6);
+    let results = run_guided_batch(&cases, &preds, threads, Duration::from_secs(10), 3);
     let mut max_append_us = 0u128;
+    let mut reported_keys: BTreeSet<String> = BTreeSet::new();
     for gr in &results {
         let enc = gr.case.encode();
         // distribution + non-triviality from the model-independent facts of the run
@@ -1350,11 +1411,29 @@ fn main() {
         }
         for (kind, o) in [(Kind::Typed, &gr.typed), (Kind::Boxed, &gr.boxed)] {
             if let Some((key, what)) = &o.oracle {
-                let key = key.clone();
-                let small = shrink_guided(&args, &gr.case, kind, |oo, _| oo.oracle.as_ref().map(|(k, _)| *k == key).unwrap_or(false));
-                rep.oracle_failure(&key, &small.encode(), &format!("{}: {}", kind.name(), o.obs.last().cloned().unwrap_or_default()), what);
+                // one shrunk witness per defect site is enough (./check reports the first per key)
+                if reported_keys.insert(key.clone()) {
+                    let key = key.clone();
+                    let small = shrink_guided(&args, &gr.case, kind, |oo, _| oo.oracle.as_ref().map(|(k, _)| *k == key).unwrap_or(false));
+                    // describe the failure of the shrunk case, not of the original one
+                    let sp = predict(&args, &[small.encode()]).map(|p| split_obs(&p[0])).unwrap_or_default();
+                    let so = run_guided(&small, kind, &sp, Duration::from_secs(3));
+                    let (what2, last) = match &so.oracle {
+                        Some((k, w)) if *k == key => (w.clone(), so.obs.last().cloned().unwrap_or_default()),
+                        _ => (what.clone(), o.obs.last().cloned().unwrap_or_default()),
+                    };
+                    let shown = if so.oracle.as_ref().map(|(k, _)| *k == key).unwrap_or(false) { small.encode() } else { enc.clone() };
+                    rep.oracle_failure(&key, &shown, &format!("{}: {}", kind.name(), last), &what2);
+                } else {
+                    rep.bump(&format!("further oracle failures:{key}"));
+                }
             }
             if let Some(k) = first_diff(&o.obs, &gr.pred).or(o.timed_out_at) {
+                let comp = format!("queue/guided-{}", kind.name());
+                if !reported_keys.insert(comp.clone()) {
+                    rep.bump(&format!("further disagreements:{comp}"));
+                    continue;
+                }
                 let small = shrink_guided(&args, &gr.case, kind, |oo, pp| first_diff(&oo.obs, pp).is_some() || oo.timed_out_at.is_some());
                 let sp = predict(&args, &[small.encode()]).map(|p| split_obs(&p[0])).unwrap_or_default();
                 let so = run_guided(&small, kind, &sp, Duration::from_secs(3));
@@ -1363,7 +1442,7 @@ fn main() {
                     None => (o.obs.get(k).cloned().unwrap_or_default(), gr.pred.get(k).cloned().unwrap_or_default(), k),
                 };
                 let shown = if first_diff(&so.obs, &sp).is_some() { small.encode() } else { enc.clone() };
-                rep.disagreement(&format!("queue/guided-{}", kind.name()), &format!("{shown} ## after op #{ck}"), &ci, &cm);
+                rep.disagreement(&comp, &format!("{shown} ## after op #{ck}"), &ci, &cm);
             }
         }
     }
@@ -1383,7 +1462,7 @@ fn main() {
                 sc.spawn(|| {
                     loop {
                         let i = next.fetch_add(1, Ordering::SeqCst);
-                        if i >= traces.len() {
+                        if i >= traces.len() || TRACE_FAILURES.load(Ordering::SeqCst) >= 3 {
                             break;
                         }
                         let o = run_trace(&traces[i]);
@@ -1400,7 +1479,10 @@ fn main() {
         let mut failures = 0;
         for (i, o) in &outs {
             let enc = traces[*i].encode();
-            rep.case(&enc, traces[*i].producers >= 2 && o.delivered >= 10);
+            rep.case(&enc, (traces[*i].producers >= 2 && traces[*i].producers * traces[*i].per >= 10) || traces[*i].backlog > 0);
+            if traces[*i].backlog > 0 {
+                rep.bump("trace with backlog behind a shut stream");
+            }
             rep.bump("trace runs");
             rep.bump(&format!("trace interval_us:{}", traces[*i].interval_us));
             rep.bump_by("trace entries delivered", o.delivered as u64);
@@ -1460,7 +1542,11 @@ fn main() {
                     run_hww_impl(&line).map(|o| hww_oracle(&line, &o).is_some()).unwrap_or(false)
                 });
                 let line = format!("{} {} {}", head[0], head[1], small.join(" "));
-                rep.oracle_failure("queue:c04-waker-tracker", &line, &run_hww_impl(&line).unwrap_or_default(), &what);
+                let io = run_hww_impl(&line).unwrap_or_default();
+                let what = hww_oracle(&line, &io).unwrap_or(what);
+                if reported_keys.insert("queue:c04-waker-tracker".into()) {
+                    rep.oracle_failure("queue:c04-waker-tracker", &line, &io, &what);
+                }
             }
         }
         rep.bump_by("hww sequences", hww.len() as u64);
@@ -1487,6 +1573,79 @@ fn main() {
                 }
             }
             None => rep.driver_available = false,
+        }
+    }
+    // ---- targeted search when model and code disagree but no oracle has failed yet (oracle only)
+    if rep.oracle_failures.is_empty() && !rep.disagreements.is_empty() && args.replay.is_none() {
+        let mut srng = rng.fork(4242);
+        let mut found: Option<(String, String, String, String)> = None;
+        let mut n = 0u64;
+        if rep.disagreements.iter().any(|d| d.component == "queue/hww") {
+            // the waker state machine differs: look for a flush completing early / never, with backlogs
+            // that make the writer hit its deadline inside a drain
+            install_perturbation(args.seed ^ 0x5ea4c4);
+            let budget = if args.thorough() { 3000 } else { 1000 };
+            for _ in 0..budget {
+                let tc = backlog_trace(&mut srng);
+                let o = run_trace(&tc);
+                n += 1;
+                if let Some((key, what)) = o.oracle {
+                    found = Some((key, tc.encode(), format!("delivered={} overflow={}", o.delivered, o.overflow), what));
+                    break;
+                }
+            }
+            metrique_writer_core::verif::set_callback(None);
+        }
+        if found.is_none() && rep.disagreements.iter().any(|d| d.component.starts_with("queue/guided")) {
+            // neighbours of the disagreeing scripts: same ops with other capacities, plus fresh scripts
+            let mut cands: Vec<Case> = vec![];
+            for d in rep.disagreements.iter() {
+                if let Some(c) = Case::decode(d.case.split(" ## ").next().unwrap_or("")) {
+                    for cap in [1usize, 2, 3, 5] {
+                        let mut c2 = c.clone();
+                        c2.ops[0] = Op::New(cap);
+                        cands.push(c2.clone());
+                        let mut c3 = c2.clone();
+                        c3.short = !c3.short && !c3.ops.iter().any(|o| *o == Op::Forget);
+                        if c3.valid() {
+                            cands.push(c3);
+                        }
+                    }
+                }
+            }
+            let fresh = if args.thorough() { 1500 } else { 300 };
+            for _ in 0..fresh {
+                cands.push(gen_case(&mut srng, &p));
+            }
+            let lines: Vec<String> = cands.iter().map(|c| c.encode()).collect();
+            if let Some(preds) = predict(&args, &lines) {
+                let mut bad = 0;
+                for (c, pr) in cands.iter().zip(preds.iter()) {
+                    if pr == "bad-op" {
+                        continue;
+                    }
+                    let pred = split_obs(pr);
+                    for kind in [Kind::Typed, Kind::Boxed] {
+                        let o = run_guided(c, kind, &pred, Duration::from_millis(if bad < 3 { 1000 } else { 300 }));
+                        n += 1;
+                        if o.timed_out_at.is_some() {
+                            bad += 1;
+                        }
+                        if let Some((key, what)) = o.oracle {
+                            found = Some((key, c.encode(), format!("{}: {}", kind.name(), o.obs.last().cloned().unwrap_or_default()), what));
+                            break;
+                        }
+                    }
+                    if found.is_some() || bad > 40 {
+                        break;
+                    }
+                }
+            }
+        }
+        rep.search_cases = n;
+        if let Some((key, case, imp, what)) = found {
+            rep.search_found = true;
+            rep.oracle_failure(&key, &case, &imp, &what);
         }
     }
     rep.write(&args);
